@@ -84,18 +84,52 @@ func signExt(v uint64, w int) int64 {
 
 // TB is a per-worker term builder with hash-consing.
 type TB struct {
+	ktab   map[termKey]*Term
 	tab    map[string]*Term
 	nextID int64
 	varSeq int
 }
 
-func NewTB() *TB { return &TB{tab: map[string]*Term{}} }
+func NewTB() *TB { return &TB{tab: map[string]*Term{}, ktab: map[termKey]*Term{}} }
 
 func (b *TB) Reset() {
-	b.tab = map[string]*Term{}
+	if len(b.ktab)+len(b.tab) > 2_000_000 {
+		b.tab = map[string]*Term{}
+		b.ktab = map[termKey]*Term{}
+	}
+}
+
+type termKey struct {
+	op         Op
+	w          int
+	c          uint64
+	p1, p2     int
+	name       string
+	a0, a1, a2 int64
+	n          int
 }
 
 func (b *TB) mk(t Term) *Term {
+	if len(t.Args) <= 3 {
+		k := termKey{op: t.Op, w: t.W, c: t.C, p1: t.P1, p2: t.P2, name: t.Name, n: len(t.Args)}
+		if len(t.Args) > 0 {
+			k.a0 = t.Args[0].id
+		}
+		if len(t.Args) > 1 {
+			k.a1 = t.Args[1].id
+		}
+		if len(t.Args) > 2 {
+			k.a2 = t.Args[2].id
+		}
+		if x, ok := b.ktab[k]; ok {
+			return x
+		}
+		b.nextID++
+		t.id = b.nextID
+		p := &t
+		b.ktab[k] = p
+		return p
+	}
 	var sb strings.Builder
 	fmt.Fprintf(&sb, "%d.%d.%d.%d.%d.%s", t.Op, t.W, t.C, t.P1, t.P2, t.Name)
 	for _, a := range t.Args {
@@ -733,37 +767,46 @@ func constLit(t *Term) string {
 	return fmt.Sprintf("(_ bv%d %d)", t.C, t.W)
 }
 
-// String renders a (small) term for diagnostics.
+// String renders a term for diagnostics, truncated to a node budget.
 func (t *Term) String() string {
+	budget := 60
+	var sb strings.Builder
+	t.render(&sb, &budget)
+	return sb.String()
+}
+
+func (t *Term) render(sb *strings.Builder, budget *int) {
+	*budget--
+	if *budget < 0 {
+		sb.WriteString("…")
+		return
+	}
 	switch t.Op {
 	case OpConst:
 		if t.W == 0 {
-			return constLit(t)
+			sb.WriteString(constLit(t))
+		} else {
+			fmt.Fprintf(sb, "%d:%d", t.C, t.W)
 		}
-		return fmt.Sprintf("%d:%d", t.C, t.W)
+		return
 	case OpVar:
-		return t.Name
+		sb.WriteString(t.Name)
+		return
 	}
-	var sb strings.Builder
 	sb.WriteString("(")
 	switch t.Op {
 	case OpExtract:
-		fmt.Fprintf(&sb, "extract[%d:%d]", t.P1, t.P2)
+		fmt.Fprintf(sb, "extract[%d:%d]", t.P1, t.P2)
 	case OpZext:
-		fmt.Fprintf(&sb, "zext%d", t.P1)
+		fmt.Fprintf(sb, "zext%d", t.P1)
 	case OpSext:
-		fmt.Fprintf(&sb, "sext%d", t.P1)
+		fmt.Fprintf(sb, "sext%d", t.P1)
 	default:
 		sb.WriteString(opNames[t.Op])
 	}
 	for _, a := range t.Args {
 		sb.WriteString(" ")
-		s := a.String()
-		if len(s) > 200 {
-			s = s[:200] + "…"
-		}
-		sb.WriteString(s)
+		a.render(sb, budget)
 	}
 	sb.WriteString(")")
-	return sb.String()
 }
